@@ -879,7 +879,7 @@ def run(ctx):
     else:
         cases = [rebuild_case(c) for c in diff.load_corpus("C25")]
         cases += directed_cases()
-        n = 260 if tier == "quick" else 2500
+        n = 220 if tier == "quick" else 2500
         n = int(os.environ.get("C25_N", n))
         cases += [gen_case(rng, "c%d" % i) for i in range(n)]
     # 1. the model first (both witness computations)
